@@ -327,6 +327,18 @@ func behaviours(seed uint64) []Behaviour {
 	add("i103-w200-implicit", clWritten, 200, probe.Spec{Info: 103, Writes: w(50, 60)})
 	add("i103-ret404", clError, 404, probe.Spec{Info: 103, Ret: 404})
 	add("i103-ret503+err", clErrorErr, 503, probe.Spec{Info: 103, Ret: 503, Err: "scripted failure after early hints"})
+	// --- the first pass hands over to an internal location (X-Accel-Redirect
+	// with the Content-Length: 0 of its own empty reply); what counts is what
+	// the second pass does. Without `internal` in the site these are the plain
+	// behaviours (see runCase).
+	add("accel-ret404", clError, 404, probe.Spec{Accel: "/secret/t", Ret: 404})
+	add("accel-ret403+err", clErrorErr, 403, probe.Spec{Accel: "/secret/t", Ret: 403, Err: "scripted failure behind an internal redirect"})
+	add("accel-ret500", clError, 500, probe.Spec{Accel: "/secret/t", Ret: 500})
+	add("accel-w200-implicit-300", clWritten, 200, probe.Spec{Accel: "/secret/t", Writes: w(300)})
+	add("accel-w200-70000-flush", clWritten, 200, probe.Spec{Accel: "/secret/t", Writes: w(-30000, 40000)})
+	add("accel-w404-implicit", clWritten, 404, probe.Spec{Accel: "/secret/t", Code: 404, Writes: w(50, 60)})
+	add("accel-w200-cl", clWritten, 200, probe.Spec{Accel: "/secret/t", Code: 200, Hdr: [][2]string{{"Content-Length", "1200"}}, Writes: w(1200)})
+	add("accel-h204", clNoBody, 204, probe.Spec{Accel: "/secret/t", Code: 204})
 	// --- written with io.Copy (the way files are sent)
 	add("w200-copy-3000", clWritten, 200, probe.Spec{Code: 200, Copy: true, Writes: w(3000)})
 	add("w200-copy-cl-70000", clWritten, 200, probe.Spec{Code: 200, Copy: true, Hdr: [][2]string{{"Content-Length", "70000"}}, Writes: w(30000, 40000)})
